@@ -361,4 +361,43 @@ def saveWritesRow (rowExists condHolds selectedUpdate : Bool) : Bool :=
   else if !selectedUpdate then rowExists      -- upsert fallback: conflict on the key ⇒ DO UPDATE
   else false
 
+/-! ## the primary key as row condition — every key shape (single, composite, none) -/
+
+/-- `Schema.PrimaryFields`: the fields with a column that are flagged primary key, in parse order
+    (schema/schema.go Parse; never just the `PrioritizedPrimaryField`) -/
+def Schema.primaryFields (s : Schema) : List FieldSpec := s.fields.filter fun f => f.primaryKey && f.dbName != []
+
+/-- `Schema.PrimaryFieldDBNames` -/
+def Schema.primaryDBNames (s : Schema) : List Col := s.primaryFields.map (·.dbName)
+
+/-- callbacks/delete.go `Delete` (and soft_delete.go): `_, queryValues := schema.GetIdentityFieldValuesMap(ctx, ReflectValue,
+    Schema.PrimaryFields)` yields nothing when EVERY component is zero and otherwise ONE tuple over ALL primary fields
+    (zero components included); `column, values := schema.ToQueryValues(Table, Schema.PrimaryFieldDBNames, queryValues)`;
+    `if len(values) > 0 { AddClause(Where{IN{column, values}}) }` → the columns the WHERE constrains -/
+def identityConds (s : Schema) (nz : List Col) : List Col :=
+  if s.primaryFields.any (fun f => nz.contains f.name) then s.primaryDBNames else []
+
+/-- `Delete`: the block above for the deleted value, then — `if ReflectValue.CanAddr() && Dest != Model && Model != nil` —
+    the same block for the model value -/
+def deleteConds (s : Schema) (nz modelNz : List Col) (hasModel : Bool) : List Col :=
+  identityConds s nz ++ (if hasModel then identityConds s modelNz else [])
+
+/-- callbacks/create.go `ConvertToCreateValues`, `OnConflict.UpdateAll` block (entered when the INSERT has a column):
+    `// use primary fields as default OnConflict columns` — the conflict target is the WHOLE key -/
+def conflictColumns (s : Schema) (cols : List Col) : List Col := if cols.isEmpty then [] else s.primaryDBNames
+
+/-- a row / a key value: column ↦ rendered value -/
+abbrev RowV := Col → List Char
+
+/-- `row` satisfies `c = key c` for every condition column (`clause.Eq` per column, or `IN` with one tuple) -/
+def matchesKey (conds : List Col) (key row : RowV) : Bool := conds.all fun c => row c == key c
+
+/-- positions (from `i`) of the rows hit by the key condition -/
+def selectRows (conds : List Col) (key : RowV) : Nat → List RowV → List Nat
+  | _, [] => []
+  | i, r :: rs => (if matchesKey conds key r then [i] else []) ++ selectRows conds key (i + 1) rs
+
+/-- association list → `RowV` (absent column = "") -/
+def rowOf (l : List (Col × List Char)) : RowV := fun c => (l.lookup c).getD []
+
 end Gorm.WriteSet
